@@ -286,6 +286,10 @@ def run(res):
             if not o.startswith("ok "):
                 raise RuntimeError("genbase failed: " + o)
             bases[key] = o[3:]
+            # the hypothesis of C10_precedence / C10_last_writer on this base: every (level, target) key at most once
+            u = C.model().run(["uniqkeys " + o[3:]])[0]
+            if u != "ok true":
+                res.violation("the base RPU of profile %s (CM v4.0 %s) does not hold every block key once (%s): the precedence theorem does not apply to it" % (PROF_CLI[prof], cm40, u), {"base": o[3:], "profile": prof, "cm40": cm40})
         m = "err" if "madvrerr" in mp else C.model().run(["gen %s %s" % ("/".join(mp) or "-", bases[key])])[0]
         if m.startswith("modelfail"):
             raise RuntimeError("model failure: " + m + " on " + "/".join(mp)[:300])
